@@ -63,6 +63,10 @@ pub fn explore(ex: &Ex) {
     let mut contents = gen::header_contents();
     contents.push(map(vec![(u(10), t("unknown")), (i(-70000), b(b"x")), (t("zz"), map(vec![(u(2), u(1)), (u(1), u(2))]))]));
     contents.push(map(vec![(u(4), b(b"k")), (u(1), i(-7))]));
+    // what is retained does not depend on which algorithm the header names
+    for (_, a) in crate::refiana::table(crate::refiana::Reg::Algorithm) {
+        contents.push(map(vec![(u(1), i(*a as i128))]));
+    }
     ex.bound("c02", "header_contents", json!(contents.len()));
     let aad256 = gen::pattern(256);
     let aads: Vec<&[u8]> = vec![b"", b"x", &aad256];
